@@ -418,6 +418,15 @@ def order_cases(draw):
     from . import c08
     tree = draw(c08.cases()) if draw(st.booleans()) else dict(draw(PS.with_imports(draw(PS.project_trees(max_depth=4)))), globs=[])
     tree["module_path"] = draw(st.sampled_from([""] + tree["dirs"])) if draw(st.integers(0, 2)) == 0 else ""
+    if tree["dirs"] and draw(st.integers(0, 3)) == 0:
+        # a module file next to a package directory of the same name (both map to one module name): whatever the scan makes
+        # of it, it must make the same of it in every enumeration order
+        d = draw(st.sampled_from(tree["dirs"]))
+        if all(c.isidentifier() for c in d.split("/")) and d + ".py" not in tree["pyfiles"]:
+            tree["pyfiles"] = sorted(tree["pyfiles"] + [d + ".py"])
+            mods = sorted(m for m in PS.tree_modules(tree) if all(p.isidentifier() for p in m.split(".")))
+            tree["imports"] = tree["imports"] + [[d + ".py", draw(st.sampled_from(mods))] for _ in range(draw(st.integers(1, 2)))]
+            tree["imports"] = [i for i in tree["imports"] if i[1] != PS.dotted(tree["root"], i[0])]
     tree["perm_seeds"] = draw(st.lists(st.integers(0, 10 ** 6), min_size=2, max_size=3, unique=True))
     tree["type"] = "order"
     return tree
